@@ -325,6 +325,7 @@ func (tc *treeCase) genPool(rootP *parsed) ([]*poolCh, []string) {
 
 // runCase: one receiver, one tree, a pool of really-signed changes, batches with mutants.
 func runCase(h *harnessState, w *world, caseNo int) {
+	defer timed("runCase")()
 	r := h.r
 	tc := &treeCase{h: h, r: r, w: w}
 	n := len(w.recs)
@@ -512,6 +513,7 @@ func timed(k string) func() {
 
 // runValidateCase: a whole tree (root + changes + claimed heads) offered to ValidateRawTreeDefault.
 func runValidateCase(h *harnessState, w *world) {
+	defer timed("runValidateCase")()
 	r := h.r
 	tc := &treeCase{h: h, r: r, w: w}
 	n := len(w.recs)
@@ -620,7 +622,8 @@ func Run(r *corr.Run) {
 				caseNo++
 			}
 		}
-		// fresh histories with other random tails
+		// fresh histories with other random tails, fresh database
+		h.openDB()
 		worlds = worlds[:0]
 		for k := 0; k < 8 && r.TimeLeft(); k++ {
 			worlds = append(worlds, buildHistory(r, k))
